@@ -125,6 +125,15 @@ def cases_labels(tier):
                 for third in (["9", "a", "b", "01"], ["3", "2", "1", "x"]):
                     for o in LABEL_OPTS_NEWICK:
                         out.append({"kind": "trees", "schema": "newick", "opts": o, "p": dict(vocab=True, first=f, later=l, third=third)})
+    # empty labels: NeXML otu label="" / otu without label attribute; Newick and NEXUS quoted empty label
+    for name, order, shape in D.NEXML_EMPTY_LABEL_SETS:
+        for two in (False, True):
+            for o in ({}, {"__ns": "plain"}, {"case_sensitive_taxon_labels": True, "__ns": "cs"}):
+                out.append({"kind": "trees", "schema": "nexml", "opts": o, "p": dict(empty=name, two=two)})
+    for schema in ("newick", "nexus"):
+        for two in (False, True):
+            for o in ({}, {"__ns": "plain"}, {"__ns": "pre"}, {"case_sensitive_taxon_labels": True, "__ns": "cs"}):
+                out.append({"kind": "trees", "schema": schema, "opts": o, "p": dict(empty="quoted-empty", two=two)})
     firsts2 = D.vocab_first_variants((3,) if q else (0, 3))
     laters2 = D.vocab_later_variants(not q)
     for f in firsts2:
@@ -468,6 +477,13 @@ def render(case):
     if p.get("shape") is not None:
         p["shape"] = _tshape(p["shape"])
     schema = case["schema"]
+    if case["kind"] == "trees" and p.get("empty"):
+        if schema == "nexml":
+            order, shape = [(o_, s_) for n_, o_, s_ in D.NEXML_EMPTY_LABEL_SETS if n_ == p["empty"]][0]
+            t, b = D.nexml_empty_label_doc(order, shape, p["two"])
+        else:
+            t, b = D.quoted_empty_label_doc(schema, p["two"])
+        return t, schema, b
     if case["kind"] == "trees" and p.get("vocab"):
         if schema == "newick":
             t, b = D.vocab_newick_doc(p["first"], p["later"], p.get("third"))
@@ -717,10 +733,10 @@ class Reporter(object):
     def viol(self, family, what, message, route, schema_free=False):
         sig = "%s|%s|%s" % (family, "any-schema" if schema_free else self.env.schema, what)
         field = what.split(":")[-1]
-        if field in ("taxon-label", "topology", "node-label"):
-            ft = self.case.get("feat")
-            if ft:
-                sig += "|doc:" + ft
+        ft = self.case.get("feat")
+        if ft and (field in ("taxon-label", "topology", "node-label")
+                   or ("empty-label" in ft and field in ("different-taxon-objects", "namespace-grew"))):
+            sig += "|doc:" + ft
         c = dict(self.case)
         c["route"] = route
         self.ctx.violation(sig, "%s: %s  [options %s]" % (route, message, self.env.opts or "{}"), c)
@@ -903,6 +919,19 @@ def run_tree_case(case, ctx, tmp):
     oc = attempt(lambda: read_into(TL(taxon_namespace=env.newns()), collection_offset=ci, tree_offset=tj))
     R.compare("TreeList", "TreeList().read(data, collection_offset=%d, tree_offset=%d)" % (ci, tj), oc, want[-1:], lambda v: list(v[0]._trees), prefix="read:offsets:")
 
+    noreread = bool(case.get("no_reread"))
+    if noreread:
+        # observed, never decided: what a second read of the same text into the same namespace does
+        def probe():
+            ns_ = ref_trees[0].taxon_namespace
+            n_ = len(ns_._taxa)
+            TL.get(**env.src("data"), **env.K(ns=ns_))
+            return len(ns_._taxa) - n_
+        oc = attempt(probe)
+        ctx.count("non_deciding_reread_of_label_less_otus|" + ("namespace grows by %d" % oc[1] if oc[0] == "ok" else "%s@%s" % (oc[1], oc[2])))
+        run_tree_array(env, R, ctx, blocks, sl, noreread=True)
+        return
+
     # --- two sources through the iterator and two incremental reads into one list (own namespace)
     oc = attempt(lambda: list(T.yield_from_files([io.StringIO(text), env.path2], **env.K())))
     R.compare("yield_from_files", "Tree.yield_from_files([StringIO, path])", oc, want + want, None, prefix="two-sources:")
@@ -942,6 +971,10 @@ def run_tree_case(case, ctx, tmp):
                 R.viol(family, "shared-namespace:different-taxon-objects",
                        "trees read again into the namespace of the first read are attached to other Taxon objects than the first time "
                        "(namespace labels before %s, after %s)" % (labels0, now), route)
+            elif len(ns0._taxa) != len(labels0) and "blocks=2" not in (case.get("feat") or ""):
+                # (with two TAXA / otus blocks the reference namespace may hold the taxa of one block only)
+                R.viol(family, "shared-namespace:namespace-grew", "re-reading the same text into the namespace of the first read added taxa: labels before %s, after %s" % (
+                    labels0, [x._label for x in ns0._taxa]), route)
 
         whole = lambda x: list(x)
         twice = lambda x: list(x) + list(x)
@@ -1041,7 +1074,7 @@ class Ctx2(object):
         pass
 
 
-def run_tree_array(env, R, ctx, blocks, sl):
+def run_tree_array(env, R, ctx, blocks, sl, noreread=False):
     T, TL, TA = dendropy.Tree, dendropy.TreeList, dendropy.TreeArray
     text, sch = env.text, env.schema
 
@@ -1181,7 +1214,8 @@ def run_tree_array(env, R, ctx, blocks, sl):
         ta = TA(taxon_namespace=env.newns())
         ta.read_from_files([env.path, io.StringIO(text)], sch, **env.kw)
         return ta
-    check("TreeArray.read_from_files([path, StringIO])", rff, {"__double": True}, "two-sources:")
+    if not noreread:
+        check("TreeArray.read_from_files([path, StringIO])", rff, {"__double": True}, "two-sources:")
     if not env.opts:
         multi = len(blocks) > 1
         for tj in range(1, max(n for n in blocks)):
@@ -1351,6 +1385,12 @@ def run_multi_case(case, ctx, tmp):
         family = "multi-file|" + route.split("(")[0].split(" ")[0]
         ns = newns()
         oc = attempt(lambda: fn(ns))
+        if oc[0] != "ok" and oc[1] == "TooManyTaxaError" and route.startswith("TreeList.read"):
+            # the listed finding (the TreeList front end counts taxa already in the namespace against NTAX), met through
+            # an earlier file instead of an earlier TAXA block: same signature
+            R.evaluated(route, family)
+            R.exc("TreeList", "%s over %s" % (route, names), oc)
+            return
         trees = R.compare(family, "%s over %s" % (route, names), oc, want, to_trees)
         if trees is None:
             return
@@ -1458,11 +1498,22 @@ def compact(case):
     text, schema, extra = render(case)
     if case["kind"] == "multi":
         menu = multi_menu(schema)
-        return {"kind": "multi", "schema": schema, "opts": case["opts"], "texts": list(text), "counts": list(extra),
-                "names": [menu[i][0] for i in case["p"]["seq"]] if "p" in case else case.get("names")}
+        names = [menu[i][0] for i in case["p"]["seq"]] if "p" in case else case.get("names")
+        c = {"kind": "multi", "schema": schema, "opts": case["opts"], "texts": list(text), "counts": list(extra), "names": names}
+        if any("empty-label" in n for n in names or []):
+            c["feat"] = "empty-label"
+        return c
     c = {"kind": case["kind"], "schema": schema, "opts": case["opts"], "text": text}
     p = case.get("p") or {}
-    if case["kind"] == "trees" and p.get("vocab"):
+    if case["kind"] == "trees" and p.get("empty"):
+        if "missing" in p["empty"]:
+            # an otu without label attribute cannot be matched by label on a second read (and the
+            # unchanged reader fails on such a namespace): re-reads are observed, not decided
+            c["feat"] = "unlabelled-otu"
+            c["no_reread"] = True
+        else:
+            c["feat"] = "empty-label"
+    elif case["kind"] == "trees" and p.get("vocab"):
         c["feat"] = "label-vocabulary" + (",taxa-blocks=%s" % {"none": 0, "one": 1}[p["taxa"]] if schema == "nexus" else "")
     elif case["kind"] == "trees" and schema == "nexus":
         c["feat"] = "taxa-blocks=%s,translate=%s" % ({"none": 0, "one": 1}.get(p.get("taxa"), 2), p.get("translate"))
